@@ -363,9 +363,30 @@ def rollback_scope(F, R):
     R.floor('C08.stream-accounting', 'check_streaming sites before a stream start', n, 2)
 
 
+def one_codec(F, R):
+    """The codec's "payload still owed" counter is what keeps other packets out of a streamed PUBLISH. It only works if the
+    sink and the io dispatcher encode through the same codec object: every io::Dispatcher is built with the shared
+    connection state (Rc<MqttShared>, whose Encoder delegates to the one codec), never with a clone of the codec."""
+    n = 0
+    for b in F.bodies.values():
+        if not re.match(r'^(<)?v[35]::', b.path):
+            continue
+        for bi, t in b.calls_to(r'^io::Dispatcher::<P, C, U, E>::new$'):
+            c = op_const(t['func']) or {}
+            args = c.get('args') or []
+            u = args[2] if len(args) > 2 else '?'
+            aty = b.local_ty(op_place(t['args'][1])['l']) if len(t['args']) > 1 and op_place(t['args'][1]) else u
+            n += 1
+            ok = bool(re.search(r'^std::rc::Rc<v[35]::shared::MqttShared>$', u)) or bool(re.search(r'^std::rc::Rc<v[35]::shared::MqttShared>$', aty))
+            R.ob('C08.codec-guard', '%s|io::Dispatcher::new|codec-is-the-shared-connection-state' % re.sub(r'(::\{closure#\d+\})+$', '', b.path), ok,
+                 'the io dispatcher is given its own codec (%s): responses it writes are not checked against the payload a streamed PUBLISH of the sink still owes, so they land inside that payload' % (aty or u), b.loc(bi))
+    R.floor('C08.codec-guard', 'io::Dispatcher::new sites in the protocol modules', n, 4)
+
+
 def stream_accounting(F, R):
     stream_start(F, R)
     rollback_scope(F, R)
+    one_codec(F, R)
     for ver in ('v3', 'v5'):
         b = F.one(r'^%s::shared::MqttShared::encode_publish_payload$' % ver)
         encs = [bi for bi, t in b.calls_to(IO_ENCODE)]
